@@ -25,6 +25,22 @@ def merge(tokens):
 _ENV = {"fmt": {}, "clos": {}, "lists": {}}
 
 
+def _helper_pieces(x):
+    """format pieces of a private helper call that only formats a fragment, else None"""
+    x = sir.strip_ref(x)
+    if x.get("k") not in ("call", "mcall"):
+        return None
+    import prectables as _pt
+    idx = getattr(_pt, "INDEX", None)
+    nm = x["m"] if x.get("k") == "mcall" else (sir.call_name(x) or "").split("::")[-1]
+    cands = [g for g in idx.fns if g.name == nm and g.body] if idx is not None and nm else []
+    if len(cands) == 1 and len(cands[0].body["stmts"]) == 1 and (cands[0].ret or "").replace(" ", "") in ("String", "CompactString"):
+        last = cands[0].body["stmts"][-1]
+        tail = last.get("e") if last.get("k") == "expr" and not last.get("semi") else None
+        return sir.format_call(tail) if tail is not None else None
+    return None
+
+
 def _collect_env(n):
     """locals that only hold pre-formatted text (`let flags = format!(..)`) and local closures: both are inlined where they are used,
     so that hoisting a fragment into a local or into a local closure does not change the token sequence"""
@@ -32,6 +48,8 @@ def _collect_env(n):
     for x in sir.walk(n):
         if x.get("k") == "local" and x["pat"].get("k") == "p_ident" and x.get("init") is not None:
             fc = sir.format_call(x["init"])
+            if fc is None:
+                fc = _helper_pieces(x["init"])
             if fc is not None:
                 fmt[x["pat"]["name"]] = fc
             elif x["init"].get("k") == "closure":
@@ -104,6 +122,18 @@ def _hole(e, out, depth):
             else:
                 _hole(p[1], out, depth + 1)
         return
+    if isinstance(e, dict) and depth < 3:
+        x = sir.strip_ref(e)
+        # a private helper that only formats a fragment (`fn flags_to_js(&self) -> String { format!("{},{},{}", ..) }`): its pieces
+        # are emitted where it is called
+        fc = _helper_pieces(x)
+        if fc is not None:
+            for p in fc:
+                if p[0] == "lit":
+                    out.append(("lit", p[1]))
+                else:
+                    _hole(p[1], out, depth + 1)
+            return
     if isinstance(e, dict):
         x = sir.strip_ref(e)
         if x.get("k") == "mcall" and x["m"] == "join" and x["recv"].get("k") == "path" and len(x["recv"]["segs"]) == 1 and x["recv"]["segs"][0] in _ENV.get("lists", {}) and depth < 3:
